@@ -39,6 +39,10 @@ def worker(k):
         except queue.Empty:
             break
         meta = json.load(open(os.path.join(d, "meta.json")))
+        if meta.get("obsolete"):
+            with lock:
+                res[name] = {"property": pid, "result": "OBSOLETE on the current tree", "violations": [meta["obsolete"][:300]], "summary": meta.get("summary", "")[:220]}
+            continue
         rc, _ = sh(["git", "-C", repo, "apply", os.path.join(d, "patch.diff")])
         if rc != 0:
             rc, _ = sh(["git", "-C", repo, "apply", "-C1", os.path.join(d, "patch.diff")])
